@@ -92,7 +92,7 @@ LITERALS = [
 PP = [("PPHASH", "#"), ("PPPRAGMA", "pragma"), ("PPPRAGMASTR", "omp x")]
 
 
-def full_alphabet(idents=("ID:x", "ID:y", "TYPEID:T"), literals=None, pp=True):
+def full_alphabet(idents=("IDENT:x", "IDENT:y", "IDENT:T"), literals=None, pp=True):
     lex = loader.native("c_lexer")
     syms = []
     for spelling, t in lex._keyword_map.items():
